@@ -246,6 +246,9 @@ func (p *peer) Dial(addr string, protoFunc ...ProtoFunc) (Session, *Status) {
 			})
 
 			if err != nil {
+				// the attempts may have renamed a session with a default id after their own local address:
+				// keep the id under which the session is indexed, so that it can be removed from the index
+				sess.socket.SetID(oldID)
 				sess.closeLocked()
 				sess.tryChangeStatus(statusRedialFailed, statusRedialing)
 				Errorf("redial fail (network:%s, addr:%s, id:%s): %s", p.network, addr, oldID, err.Error())
